@@ -5,7 +5,7 @@ from lib import histprops as P
 
 
 def gen(rng, tier):
-    n = 220 if tier == "quick" else 12000
+    n = 1500 if tier == "quick" else 40000
     cases = []
     for i in range(n):
         cases.append(G.gen_history(rng, "l%d" % i, profile="mixed", late_p=rng.choice([0.15, 0.3, 0.5]), probe_p=0.15,
